@@ -174,6 +174,7 @@ PROPS = {
     "C24": dict(
         title="library list relations (member, member1, append, rember, permute, distinct, cons, first, rest, empty)",
         props_module="PvModel.Props.C24",
+        props_extra=["PvModel.Props.C24Sem"],
         rule="every relation in random argument modes (each argument a fresh variable, a list with a variable element, or ground; lists of length "
              "<=4 over {1,2,3} with repeats); finite modes: the ground instances of the answers over a finite universe (through the reported "
              "constraints) are exactly the ground tuples in the relation, member yields one answer per matching position and member1 one per "
@@ -181,7 +182,7 @@ PROPS = {
              "(known finding D20 otherwise); non-trivial = >=2 answers; distinct = distinct case lines",
         trusted=SEARCH_TRUST,
         assumptions=[],
-        open=["ground-semantics theorems (Sat γ (rel args) ↔ List specification) for the recursive relations are not proved yet; the relations' elaborated bodies are part of the model and are diffed against the implementation; the oracle is Vec-based"],
+        open=["declarative SOUNDNESS of all six recursive relations in every argument mode is proved (Props/C24Sem.lean); their COMPLETENESS (every tuple in the relation is described by a delivered state) and answer multiplicities are carried by the correspondence and the Vec-based oracle"],
     ),
     "C20": dict(
         title="compound terms (unification, disequality, reification, FD labelling)",
